@@ -5,6 +5,7 @@ known_findings.json holds two lists:
   fixed:    strings "fixed: property=<id> <commit> <what failed>"    - suppresses nothing
 The file is read-only at run time.
 """
+import fnmatch
 import json
 import os
 
@@ -61,7 +62,7 @@ def match(entries, prop, clause, meta, ev, trace):
         if e['property'] != prop:
             continue
         cl = e['clause']
-        if not (clause == cl or (cl.endswith('*') and clause.startswith(cl[:-1]))):
+        if not (clause == cl or fnmatch.fnmatchcase(clause, cl)):
             continue
         if fs is None:
             fs = facts(meta, ev, trace)
